@@ -54,9 +54,10 @@ impl FilesystemAdapter {
     }
 
     fn get_object_path(&self, key: &str) -> Result<(String, PathBuf)> {
-        let prefix = &key[..2];
-        let subdirectory = self.path.clone().join(prefix).join(key);
-        Ok((prefix.to_string(), subdirectory))
+        // The container is named after the first two characters of the key (a shorter key names it itself)
+        let prefix: String = key.chars().take(2).collect();
+        let subdirectory = self.path.clone().join(&prefix).join(key);
+        Ok((prefix, subdirectory))
     }
 
     fn ensure_container_exists(&self, key: &str) -> Result<(String, PathBuf)> {
